@@ -7,7 +7,7 @@ EXPLANATION = ('Writer/reader agreement of every hand-written TLV table (un-expa
 	'writer emits is read by its paired reader, every type a reader requires is written unconditionally, type numbers increase; '
 	'every TLV macro invocation is paired, symmetric-by-construction, or on a reviewed list (fail closed). Field coverage: every field of '
 	'the persisted structs is read under its writer or is on the reviewed not-persisted list. Decoder guards (unknown even type rejected, '
-	'version prefix) are checked on the expanded MIR. Decides table agreement and coverage, not value equality after a round trip.')
+	'version prefix) are checked on the expanded MIR. Also: hand-written one-byte enum codecs (variant->byte and byte->variant tables extracted from MIR; deliberately lossy variants reviewed); each TLV type of a hand-written table is restored into the field it was written from. Decides table agreement and coverage, not value equality after a round trip.')
 ASSUMPTIONS = ['the TLV macros themselves (util/ser_macros.rs) implement the wire format correctly', 'symmetric macros generate matching writer and reader from one table']
 TECHNIQUE = 'static analysis: syntax-tree extraction of TLV macro tables (syn) with writer/reader table agreement + MIR field-coverage census'
 
